@@ -18,6 +18,20 @@ Accepted subset (anything else raises Refusal — never a silent skip):
   expressions: + - * / ** (int literal), unary -, float/int literals, names,
               constants.<name>, np.<ufunc>, calls of other translated functions,
               comparisons (< <= > >=), `a if c else b`, np.where(c, a, b)
+
+Extensions (additive; used by specs_geodesy, none changes the output of older specs):
+  parameters: spec["tuple_params"] {name: n}: a tuple-valued parameter becomes n scalars `<name>_<i>`
+              (`name[i]` with literal i); spec["none_params"] [names]: `x=None` parameters modelled as
+              absent (`x is None` decided statically); spec["given_params"] [names]: `x=None` parameters
+              modelled as supplied; spec["kwargs_empty"]: `**kwargs` modelled as empty
+  statements: `if c: … else: …` with assignments (merged into `let v := if c then … else …`);
+              `while c: body` (-> `whileLoop c body init` over the tuple of the variables the body
+              assigns; ℝ: first exit state by classical choice, Float: fuel-bounded);
+              `x op= e`; `a, b, c = f(…)` for translated tuple functions; `a, b = map(np.f, [a, b])`;
+              `e[m] = <expr with v[m]>`, `e[m] op= …` (general mask assignment), `if any(m): <masked body>`;
+              `inrange(x, lo, hi, exclude=…)` (-> `<name>_rejects`); tuple locals, `f(*t)`, np.column_stack
+  expressions: == !=, np.ones/zeros/empty (shape glue), np.clip, np.sign, np.sum(<tuple expr>, axis=1),
+              np.logical_and/or/not, ~m, np.isnan, abs(), any()/all(), `.copy()`
 """
 import ast
 import fractions
@@ -69,6 +83,7 @@ class Translator:
         self.src = source_text
         self.used_constants = {}
         self.notes = []
+        self.uses_while = False
 
     # -------------------------------------------------------------- expressions
     def expr(self, e, d, env):
@@ -117,7 +132,67 @@ class Translator:
                 and isinstance(e.value, ast.Name):
             self.notes.append(f"axis reversal {ast.unparse(e)}: pointwise identity (order handled as list reversal)")
             return self.expr(e.value, d, env)
+        if isinstance(e, ast.Subscript) and isinstance(e.value, ast.Name):
+            k = env.get(e.value.id, "")
+            if isinstance(k, str) and k.startswith("tparam:") and isinstance(e.slice, ast.Constant) \
+                    and isinstance(e.slice.value, int) and 0 <= e.slice.value < int(k[7:]):
+                return f"{san(e.value.id)}_{e.slice.value}"
+            if k == "num" and isinstance(e.slice, ast.Name) and env.get(e.slice.id) == "bool":
+                # v[m] for a boolean mask m: pointwise the element itself (meaningful where m holds)
+                return san(e.value.id)
         raise Refusal(f"expression {type(e).__name__}: {ast.unparse(e)}")
+
+    # ---------------------------------------------------------- tuples (additive)
+    @staticmethod
+    def proj(t, i, n):
+        """i-th component (0-based) of the right-nested n-tuple term t"""
+        if n == 1:
+            return t
+        return f"{t}" + ".2" * i + (".1" if i < n - 1 else "")
+
+    def vexpr(self, e, d, env):
+        """component list of a tuple-valued (row vector) expression, or None if e is scalar"""
+        if isinstance(e, ast.Name) and isinstance(env.get(e.id), str) and env[e.id].startswith("tuple:"):
+            n = int(env[e.id][6:])
+            return [self.proj(san(e.id), i, n) for i in range(n)]
+        if isinstance(e, ast.BinOp):
+            a, b = self.vexpr(e.left, d, env), self.vexpr(e.right, d, env)
+            if a is None and b is None:
+                return None
+            if isinstance(e.op, ast.Pow):
+                if b is not None:
+                    raise Refusal(f"tuple exponent {ast.unparse(e)}")
+                out = []
+                for comp in a:
+                    fake = ast.BinOp(left=ast.Name(id="__c", ctx=ast.Load()), op=ast.Pow(), right=e.right)
+                    env2 = dict(env)
+                    env2["__c"] = "num"
+                    out.append(self.power(fake, d, env2).replace(san("__c"), comp))
+                return out
+            ops = {ast.Add: "+", ast.Sub: "-", ast.Mult: "*", ast.Div: "/"}
+            if type(e.op) not in ops:
+                raise Refusal(f"operator {type(e.op).__name__}")
+            n = len(a or b)
+            if a is not None and b is not None and len(a) != len(b):
+                raise Refusal(f"tuple arity in {ast.unparse(e)}")
+            a = a or [self.expr(e.left, d, env)] * n
+            b = b or [self.expr(e.right, d, env)] * n
+            return [f"({x} {ops[type(e.op)]} {y})" for x, y in zip(a, b)]
+        return None
+
+    def tuple_call(self, e, d, env):
+        """(lean term, arity) of a call of a translated tuple-valued function, else None"""
+        if isinstance(e, ast.Call) and isinstance(e.func, ast.Attribute) and isinstance(e.func.value, ast.Name) \
+                and e.func.value.id == "np" and e.func.attr == "column_stack" and len(e.args) == 1 and not e.keywords:
+            r = self.tuple_call(e.args[0], d, env)
+            if r is None:
+                raise Refusal(f"np.column_stack of {ast.unparse(e.args[0])}")
+            self.notes.append("np.column_stack(<tuple>): rows of the stacked array are the pointwise tuples")
+            return r
+        if isinstance(e, ast.Call) and isinstance(e.func, ast.Name) and e.func.id in self.known \
+                and self.known[e.func.id].get("ntuple"):
+            return self.call(e, d, env), self.known[e.func.id]["ntuple"]
+        return None
 
     def power(self, e, d, env):
         base = self.expr(e.left, d, env)
@@ -149,7 +224,22 @@ class Translator:
         R = d == "real"
         f = e.func
         if e.keywords:
-            raise Refusal(f"keyword arguments in {ast.unparse(e)}")
+            kw = e.keywords
+            if (len(kw) == 1 and kw[0].arg is None and isinstance(kw[0].value, ast.Name)
+                    and env.get(kw[0].value.id) == "kwargs" and isinstance(f, ast.Name) and f.id in self.known):
+                self.notes.append(f"**{kw[0].value.id} modelled as empty in {ast.unparse(e)}")
+            elif (isinstance(f, ast.Attribute) and isinstance(f.value, ast.Name) and f.value.id == "np" and f.attr == "sum"
+                  and len(kw) == 1 and kw[0].arg == "axis" and isinstance(kw[0].value, ast.Constant) and kw[0].value.value == 1
+                  and len(e.args) == 1):
+                comps = self.vexpr(e.args[0], d, env)
+                if comps is None:
+                    raise Refusal(f"np.sum(axis=1) of a non-tuple: {ast.unparse(e)}")
+                t = comps[0]
+                for c in comps[1:]:
+                    t = f"({t} + {c})"
+                return t
+            else:
+                raise Refusal(f"keyword arguments in {ast.unparse(e)}")
         args = e.args
         if isinstance(f, ast.Attribute) and isinstance(f.value, ast.Name) and f.value.id == "np":
             n = f.attr
@@ -178,7 +268,32 @@ class Translator:
             if n == "imag" and len(args) == 1:
                 self.expr(args[0], d, env)           # must be translatable
                 return "(0 : ℝ)" if R else "(0 : Float)"   # real-valued model
+            if n in ("ones", "zeros", "empty") and len(args) == 1:
+                sh = ast.unparse(args[0])
+                ok = (isinstance(args[0], ast.Attribute) and args[0].attr == "shape" and isinstance(args[0].value, ast.Name)
+                      and env.get(args[0].value.id) == "num") or \
+                     (isinstance(args[0], ast.Call) and ast.unparse(args[0].func) == "np.shape" and len(args[0].args) == 1
+                      and isinstance(args[0].args[0], ast.Name) and env.get(args[0].args[0].id) == "num")
+                if not ok:
+                    raise Refusal(f"np.{n}({sh}): shape is not that of a parameter/local")
+                v = 1 if n == "ones" else 0
+                self.notes.append(f"np.{n}({sh}): shape glue, pointwise {v}"
+                                  + (" (np.empty: placeholder; every element must be overwritten before it is read)" if n == "empty" else ""))
+                return f"({v} : ℝ)" if R else f"({v} : Float)"
+            if n == "clip" and len(args) == 3:
+                v, lo, hi = (self.expr(a, d, env) for a in args)
+                if R:
+                    return f"(min (max {v} {lo}) {hi})"
+                return f"(let v_ := {v}; if v_ < {lo} then {lo} else if v_ > {hi} then {hi} else v_)"
+            if n == "sign" and len(args) == 1:
+                v = self.expr(args[0], d, env)
+                if R:
+                    return f"(let v_ : ℝ := {v}; if v_ > 0 then (1 : ℝ) else if v_ < 0 then (-1 : ℝ) else 0)"
+                return f"(let v_ : Float := {v}; if v_ > 0 then (1 : Float) else if v_ < 0 then (-1 : Float) else v_)"
             raise Refusal(f"numpy function np.{n}/{len(args)}")
+        if isinstance(f, ast.Attribute) and f.attr == "copy" and not args \
+                and not (isinstance(f.value, ast.Name) and f.value.id == "np"):
+            return self.expr(f.value, d, env)          # value copy: pointwise identity
         if isinstance(f, ast.Attribute) and f.attr in ("ravel", "flatten") and not args:
             return self.expr(f.value, d, env)          # shape glue: pointwise identity
         if isinstance(f, ast.Attribute) and f.attr == "reshape" \
@@ -189,6 +304,12 @@ class Translator:
                 if len(args) != 1:
                     raise Refusal("function parameter with arity != 1")
                 return f"({san(f.id)} {self.expr(args[0], d, env)})"
+            if f.id in self.known and (self.known[f.id].get("pykinds") is not None
+                                       and (any(k not in ("num", "fun") for _, k in self.known[f.id]["pykinds"])
+                                            or any(isinstance(a, ast.Starred) for a in args))):
+                return self.call_ext(e, d, env)
+            if f.id == "abs" and len(args) == 1:
+                return f"({'abs' if R else 'Float.abs'} {self.expr(args[0], d, env)})"
             if f.id in self.known:
                 spec = self.known[f.id]
                 nargs = spec["nparams"]
@@ -202,11 +323,55 @@ class Translator:
             raise Refusal(f"call of unknown function {f.id}")
         raise Refusal(f"call {ast.unparse(e)}")
 
+    def call_ext(self, e, d, env):
+        """call of a translated function that has tuple / absent (None) parameters, or with *tuple"""
+        R = d == "real"
+        spec = self.known[e.func.id]
+        kinds = list(spec["pykinds"])          # [(python parameter, kind)]
+        out = []
+        i = 0
+        for a in e.args:
+            if isinstance(a, ast.Starred):
+                if not (isinstance(a.value, ast.Name) and str(env.get(a.value.id, "")).startswith("tuple:")):
+                    raise Refusal(f"starred argument {ast.unparse(a)}")
+                n = int(env[a.value.id][6:])
+                for j in range(n):
+                    if i >= len(kinds) or kinds[i][1] != "num":
+                        raise Refusal(f"call {ast.unparse(e)}: *{a.value.id} does not match scalar parameters")
+                    out.append(self.proj(san(a.value.id), j, n))
+                    i += 1
+                continue
+            if i >= len(kinds):
+                raise Refusal(f"call {ast.unparse(e)}: too many arguments")
+            k = kinds[i][1]
+            if k == "num":
+                out.append(self.expr(a, d, env))
+            elif k == "none":
+                if not (isinstance(a, ast.Name) and env.get(a.id) == "none") and not (isinstance(a, ast.Constant) and a.value is None):
+                    raise Refusal(f"call {ast.unparse(e)}: parameter {kinds[i][0]} is modelled as absent but receives {ast.unparse(a)}")
+            elif k.startswith("tparam:"):
+                if not (isinstance(a, ast.Name) and env.get(a.id) == k):
+                    raise Refusal(f"call {ast.unparse(e)}: tuple parameter {kinds[i][0]} receives {ast.unparse(a)}")
+                out += [f"{san(a.id)}_{j}" for j in range(int(k[7:]))]
+            else:
+                raise Refusal(f"call {ast.unparse(e)}: parameter kind {k}")
+            i += 1
+        for name, k in kinds[i:]:
+            if k != "none":
+                raise Refusal(f"call {ast.unparse(e)}: parameter {name} not supplied")
+        ns = "TR" if R else "TF"
+        return "(" + f"{ns}.{san(spec.get('lean_name', e.func.id))} " + " ".join(out) + ")"
+
     def cond(self, e, d, env):
         """boolean expression: Prop (real, classical if) or Bool (float)"""
         R = d == "real"
         if isinstance(e, ast.Compare) and len(e.ops) == 1:
             ops = {ast.Lt: "<", ast.LtE: "≤", ast.Gt: ">", ast.GtE: "≥"}
+            if type(e.ops[0]) in (ast.Eq, ast.NotEq):
+                a, b = self.expr(e.left, d, env), self.expr(e.comparators[0], d, env)
+                if isinstance(e.ops[0], ast.Eq):
+                    return f"({a} = {b})" if R else f"({a} == {b})"
+                return f"({a} ≠ {b})" if R else f"({a} != {b})"
             if type(e.ops[0]) not in ops:
                 raise Refusal(f"comparison {ast.unparse(e)}")
             a, b = self.expr(e.left, d, env), self.expr(e.comparators[0], d, env)
@@ -225,6 +390,25 @@ class Translator:
         if isinstance(e, ast.Call) and isinstance(e.func, ast.Attribute) and isinstance(e.func.value, ast.Name) \
                 and e.func.value.id == "np" and e.func.attr in ("any", "all") and len(e.args) == 1:
             return self.cond(e.args[0], d, env)       # pointwise
+        if isinstance(e, ast.UnaryOp) and isinstance(e.op, ast.Invert):
+            return f"(¬ {self.cond(e.operand, d, env)})" if R else f"(!{self.cond(e.operand, d, env)})"
+        if isinstance(e, ast.Call) and isinstance(e.func, ast.Name) and e.func.id in ("any", "all") and len(e.args) == 1 \
+                and not e.keywords and not isinstance(e.args[0], ast.GeneratorExp):
+            return self.cond(e.args[0], d, env)       # pointwise
+        if isinstance(e, ast.Call) and isinstance(e.func, ast.Attribute) and isinstance(e.func.value, ast.Name) \
+                and e.func.value.id == "np" and not e.keywords:
+            n, a = e.func.attr, e.args
+            if n in ("logical_and", "logical_or") and len(a) == 2:
+                j = (" ∧ " if n == "logical_and" else " ∨ ") if R else (" && " if n == "logical_and" else " || ")
+                return "(" + self.cond(a[0], d, env) + j + self.cond(a[1], d, env) + ")"
+            if n == "logical_not" and len(a) == 1:
+                return f"(¬ {self.cond(a[0], d, env)})" if R else f"(!{self.cond(a[0], d, env)})"
+            if n == "isnan" and len(a) == 1:
+                x = self.expr(a[0], d, env)
+                return "False" if R else f"(Float.isNaN {x})"      # no NaN among the reals
+            if n == "isreal" and len(a) == 1:
+                self.expr(a[0], d, env)
+                return "True" if R else "true"
         raise Refusal(f"condition {ast.unparse(e)}")
 
     def static(self, e):
@@ -235,6 +419,27 @@ class Translator:
                 return True
             if e.func.attr in ("all", "any") and len(e.args) == 1:
                 return self.static(e.args[0])
+        if isinstance(e, ast.Compare) and len(e.ops) == 1 and isinstance(e.ops[0], (ast.Is, ast.IsNot)) \
+                and isinstance(e.left, ast.Name) and isinstance(e.comparators[0], ast.Constant) and e.comparators[0].value is None:
+            k = getattr(self, "presence", {}).get(e.left.id)
+            if k is None:
+                return None
+            return (k == "absent") == isinstance(e.ops[0], ast.Is)
+        if isinstance(e, ast.Call) and isinstance(e.func, ast.Name) and e.func.id == "all" and len(e.args) == 1 \
+                and isinstance(e.args[0], ast.GeneratorExp) and len(e.args[0].generators) == 1:
+            g = e.args[0].generators[0]
+            if isinstance(g.iter, ast.List) and isinstance(g.target, ast.Name) and not g.ifs \
+                    and all(isinstance(x, ast.Name) for x in g.iter.elts):
+                vals = []
+                for x in g.iter.elts:
+                    sub = ast.parse(ast.unparse(e.args[0].elt), mode="eval").body
+                    for nd in ast.walk(sub):
+                        if isinstance(nd, ast.Name) and nd.id == g.target.id:
+                            nd.id = x.id
+                    vals.append(self.static(sub))
+                if any(v is False for v in vals):
+                    return False
+                return True if all(v is True for v in vals) else None
         if isinstance(e, ast.BoolOp):
             vals = [self.static(v) for v in e.values]
             if isinstance(e.op, ast.And):
@@ -258,6 +463,274 @@ class Translator:
         self.used_constants[name] = float(v)
         return f"C.{san(name)}" if d == "real" else f"CF.{san(name)}"
 
+    # -------------------------------------------------------------- statements (additive)
+    def fresh(self, stem):
+        self._tmp += 1
+        return f"{stem}{self._tmp}_"
+
+    def tuple_ty(self, ty, n):
+        return " × ".join([ty] * n)
+
+    def is_mask(self, m, env):
+        if isinstance(m, ast.Name):
+            return env.get(m.id) == "bool"
+        return (isinstance(m, ast.Call) and isinstance(m.func, ast.Attribute) and isinstance(m.func.value, ast.Name)
+                and m.func.value.id == "np" and m.func.attr in ("logical_and", "logical_or", "logical_not"))
+
+    def check_masks(self, value, m):
+        """every v[<bool name>] inside value must select with the same mask as the target"""
+        for nd in ast.walk(value):
+            if isinstance(nd, ast.Subscript) and isinstance(nd.slice, ast.Name) and isinstance(m, ast.Name) \
+                    and nd.slice.id != m.id and isinstance(nd.value, ast.Name):
+                raise Refusal(f"mask assignment mixes masks {m.id} and {nd.slice.id}")
+
+    def block(self, stmts, env, d, ty, assigned):
+        """nested statement list -> let lines; names assigned (in order) are appended to `assigned`"""
+        lets = []
+        for st in stmts:
+            ctx = {"guards": None, "ret": None, "rettuple": 0, "top": False, "ty": ty, "assigned": assigned}
+            before = set(env)
+            if self.stmt_ext(st, lets, env, d, ctx, pre=True):
+                pass
+            elif isinstance(st, ast.Assign) and len(st.targets) == 1 and isinstance(st.targets[0], ast.Name):
+                tgt, v = st.targets[0], st.value
+                if isinstance(v, (ast.Compare, ast.BoolOp)) or (isinstance(v, ast.Call) and self.is_mask(v, env)):
+                    lets.append(f"let {san(tgt.id)} : {'Prop' if d == 'real' else 'Bool'} := {self.cond(v, d, env)}")
+                    env[tgt.id] = "bool"
+                else:
+                    lets.append(f"let {san(tgt.id)} : {ty} := {self.expr(v, d, env)}")
+                    env[tgt.id] = "num"
+                assigned.append(tgt.id)
+            elif self.stmt_ext(st, lets, env, d, ctx, pre=False):
+                pass
+            else:
+                raise Refusal(f"nested statement {type(st).__name__}: {ast.unparse(st).splitlines()[0]}")
+        return lets
+
+    def stmt_ext(self, st, lets, env, d, ctx, pre):
+        """statement forms added for specs_geodesy; returns True when the statement was translated.
+        pre=True: forms tried before the original statement logic (which would mistranslate them);
+        pre=False: forms the original logic refuses."""
+        R = d == "real"
+        ty = ctx["ty"]
+        assigned = ctx.get("assigned")
+        if assigned is None:
+            assigned = ctx["assigned"] = []
+        first = ast.unparse(st).splitlines()[0]
+        if pre:
+            # x = <call of a tuple-valued translated function>
+            if isinstance(st, ast.Assign) and len(st.targets) == 1 and isinstance(st.targets[0], ast.Name):
+                tc = self.tuple_call(st.value, d, env)
+                if tc is not None:
+                    term, n = tc
+                    lets.append(f"let {san(st.targets[0].id)} : {self.tuple_ty(ty, n)} := {term}")
+                    env[st.targets[0].id] = f"tuple:{n}"
+                    assigned.append(st.targets[0].id)
+                    return True
+                # mask-valued local built with np.logical_*
+                if isinstance(st.value, ast.Call) and self.is_mask(st.value, env):
+                    lets.append(f"let {san(st.targets[0].id)} : {'Prop' if R else 'Bool'} := {self.cond(st.value, d, env)}")
+                    env[st.targets[0].id] = "bool"
+                    assigned.append(st.targets[0].id)
+                    return True
+                # message text of a guard
+                if isinstance(st.value, ast.Constant) and isinstance(st.value.value, str):
+                    self.notes.append(f"string local skipped (not bound): {first}")
+                    return True
+                return False
+            # a, b, c = f(...)   |   a, b = map(np.g, [a, b])
+            if isinstance(st, ast.Assign) and len(st.targets) == 1 and isinstance(st.targets[0], ast.Tuple) \
+                    and all(isinstance(t, ast.Name) for t in st.targets[0].elts):
+                names = [t.id for t in st.targets[0].elts]
+                tc = self.tuple_call(st.value, d, env)
+                if tc is not None:
+                    term, n = tc
+                    if n != len(names):
+                        raise Refusal(f"tuple arity: {first}")
+                    tmp = self.fresh("tup")
+                    lets.append(f"let {tmp} : {self.tuple_ty(ty, n)} := {term}")
+                    for i, nm in enumerate(names):
+                        lets.append(f"let {san(nm)} : {ty} := {self.proj(tmp, i, n)}")
+                        env[nm] = "num"
+                        assigned.append(nm)
+                    return True
+                v = st.value
+                if isinstance(v, ast.Call) and isinstance(v.func, ast.Name) and v.func.id == "map" and len(v.args) == 2 \
+                        and isinstance(v.args[1], ast.List) and len(v.args[1].elts) == len(names) \
+                        and [ast.unparse(x) for x in v.args[1].elts] == names:
+                    for nm in names:
+                        call = ast.Call(func=v.args[0], args=[ast.Name(id=nm, ctx=ast.Load())], keywords=[])
+                        lets.append(f"let {san(nm)} : {ty} := {self.expr(call, d, env)}")
+                        assigned.append(nm)
+                    return True
+                raise Refusal(f"tuple assignment: {first}")
+            # return <call of a tuple-valued translated function>
+            if isinstance(st, ast.Return) and st.value is not None and ctx["top"]:
+                tc = self.tuple_call(st.value, d, env)
+                if tc is not None:
+                    ctx["ret"], ctx["rettuple"] = tc
+                    return True
+            return False
+        # ---------------- forms the original logic refuses
+        # inrange(x, lo, hi, exclude=…, text=…): typhon.geodesy.inrange raises when x is outside
+        if isinstance(st, ast.Expr) and isinstance(st.value, ast.Call) and isinstance(st.value.func, ast.Name) \
+                and st.value.func.id == "inrange" and len(st.value.args) == 3:
+            if not ctx["top"]:
+                raise Refusal(f"guard inside a branch: {first}")
+            kw = {k.arg: k.value for k in st.value.keywords}
+            if set(kw) - {"exclude", "text"}:
+                raise Refusal(f"inrange keywords: {first}")
+            ex = kw.get("exclude", ast.Constant(value="none"))
+            if not (isinstance(ex, ast.Constant) and ex.value in ("none", "lower", "upper", "both")):
+                raise Refusal(f"inrange exclude: {first}")
+            x, lo, hi = (self.expr(a, d, env) for a in st.value.args)
+            lo_bad = "≤" if ex.value in ("lower", "both") else "<"      # rejected when x (<|≤) lo
+            hi_bad = "≥" if ex.value in ("upper", "both") else ">"
+            if R:
+                ctx["guards"].append(f"({x} {lo_bad} {lo})")
+                ctx["guards"].append(f"({x} {hi_bad} {hi})")
+            else:
+                f_ = {"<": "<", "≤": "<=", ">": ">", "≥": ">="}
+                ctx["guards"].append(f"(decide ({x} {f_[lo_bad]} {lo}))")
+                ctx["guards"].append(f"(decide ({x} {f_[hi_bad]} {hi}))")
+            return True
+        # x op= e
+        ops = {ast.Add: "+", ast.Sub: "-", ast.Mult: "*", ast.Div: "/"}
+        if isinstance(st, ast.AugAssign) and isinstance(st.target, ast.Name) and type(st.op) in ops:
+            if env.get(st.target.id) != "num":
+                raise Refusal(f"augmented assignment to {st.target.id}: {first}")
+            n = san(st.target.id)
+            lets.append(f"let {n} : {ty} := ({n} {ops[type(st.op)]} {self.expr(st.value, d, env)})")
+            assigned.append(st.target.id)
+            return True
+        # e[m] = <expr>,  e[m] op= <expr>   (m: boolean local or np.logical_* of such)
+        tgt = st.targets[0] if isinstance(st, ast.Assign) and len(st.targets) == 1 else st.target if isinstance(st, ast.AugAssign) else None
+        if isinstance(tgt, ast.Subscript) and isinstance(tgt.value, ast.Name) and env.get(tgt.value.id) == "num" \
+                and self.is_mask(tgt.slice, env):
+            self.check_masks(st.value, tgt.slice)
+            n = san(tgt.value.id)
+            m = self.cond(tgt.slice, d, env)
+            v = self.expr(st.value, d, env)
+            if isinstance(st, ast.AugAssign):
+                if type(st.op) not in ops:
+                    raise Refusal(f"operator in {first}")
+                v = f"({n} {ops[type(st.op)]} {v})"
+            lets.append(f"let {n} : {ty} := if {m} then {v} else {n}")
+            assigned.append(tgt.value.id)
+            return True
+        # if any(m): <body of assignments masked by m / fresh locals>   -> the body itself (pointwise)
+        if isinstance(st, ast.If) and not st.orelse and isinstance(st.test, ast.Call) and len(st.test.args) == 1 \
+                and ast.unparse(st.test.func) in ("any", "np.any") and isinstance(st.test.args[0], ast.Name) \
+                and env.get(st.test.args[0].id) == "bool":
+            m = st.test.args[0].id
+            for b in st.body:
+                t = b.targets[0] if isinstance(b, ast.Assign) and len(b.targets) == 1 else b.target if isinstance(b, ast.AugAssign) else None
+                if isinstance(t, ast.Subscript) and isinstance(t.slice, ast.Name) and t.slice.id == m:
+                    continue
+                if isinstance(b, ast.Assign) and isinstance(t, ast.Name) and t.id not in env:
+                    continue
+                raise Refusal(f"statement under `if any({m})` is neither masked by {m} nor a fresh local: {ast.unparse(b).splitlines()[0]}")
+            self.notes.append(f"`if any({m})`: body translated pointwise (its assignments are masked by {m})")
+            lets += self.block(st.body, env, d, ty, assigned)
+            return True
+        # if c: … else: …   (assignments only) -> merged lets
+        if isinstance(st, ast.If):
+            c = self.cond(st.test, d, env)
+            env_t, env_e = dict(env), dict(env)
+            as_t, as_e = [], []
+            lets_t = self.block(st.body, env_t, d, ty, as_t)
+            lets_e = self.block(st.orelse, env_e, d, ty, as_e)
+            merged = []
+            for v in as_t + as_e:
+                if v not in merged and env_t.get(v) == "num" and env_e.get(v) == "num":
+                    merged.append(v)
+            dropped = [v for v in dict.fromkeys(as_t + as_e) if v not in merged]
+            for v in dropped:
+                env.pop(v, None)
+            if dropped:
+                self.notes.append(f"`if {ast.unparse(st.test)}`: not bound after the statement (assigned on one path only): {', '.join(dropped)}")
+            if not merged:
+                raise Refusal(f"if statement assigns no common variable: {first}")
+            tup = "(" + ", ".join(san(v) for v in merged) + ")" if len(merged) > 1 else san(merged[0])
+
+            def br(ls):
+                return "(" + "".join(l + "; " for l in ls) + tup + ")"
+            if len(merged) == 1:
+                lets.append(f"let {san(merged[0])} : {ty} := if {c} then {br(lets_t)} else {br(lets_e)}")
+            else:
+                tmp = self.fresh("if")
+                n = len(merged)
+                lets.append(f"let {tmp} : {self.tuple_ty(ty, n)} := if {c} then {br(lets_t)} else {br(lets_e)}")
+                for i, v in enumerate(merged):
+                    lets.append(f"let {san(v)} : {ty} := {self.proj(tmp, i, n)}")
+            for v in merged:
+                env[v] = "num"
+                assigned.append(v)
+            return True
+        # while c: body
+        if isinstance(st, ast.While) and not st.orelse:
+            env_b = dict(env)
+            as_b = []
+            probe = Translator(self.C, self.known, self.src)     # first pass: which variables does the body assign
+            probe.presence, probe._tmp, probe.pykinds = self.presence, 1000, self.pykinds
+            penv = dict(env)
+            for v in self.assigned_names(st.body):
+                penv.setdefault(v, "num")
+            probe.block(st.body, penv, d, ty, as_b)
+            state = list(dict.fromkeys(as_b))
+            if any(penv.get(v) != "num" for v in state):
+                raise Refusal(f"loop state is not numeric: {first}")
+            n = len(state)
+            T = self.tuple_ty(ty, n)
+            init = []
+            for v in state:
+                if env.get(v) == "num":
+                    init.append(san(v))
+                elif v not in env:
+                    init.append(f"(0 : {ty})")
+                    self.notes.append(f"while: {v} is unassigned before the loop (placeholder 0; Python raises UnboundLocalError "
+                                      f"when the body never runs and {v} is read)")
+                else:
+                    raise Refusal(f"loop variable {v} has kind {env[v]}")
+            for v in state:
+                env_b[v] = "num"
+            unpack = "".join(f"let {san(v)} : {ty} := {self.proj('s_', i, n)}; " for i, v in enumerate(state))
+            cnd = self.cond(st.test, d, env_b)
+            body_lets = self.block(st.body, env_b, d, ty, [])
+            tup = "(" + ", ".join(san(v) for v in state) + ")" if n > 1 else san(state[0])
+            tmp = self.fresh("wh")
+            loop = "TR.whileLoop" if R else "TF.whileLoop 100000"
+            lets.append(f"let {tmp} : {T} := {loop} (fun (s_ : {T}) => {unpack}{cnd}) "
+                        f"(fun (s_ : {T}) => {unpack}" + "".join(l + "; " for l in body_lets) + f"{tup}) "
+                        f"({', '.join(init)})")
+            for i, v in enumerate(state):
+                lets.append(f"let {san(v)} : {ty} := {self.proj(tmp, i, n)}")
+                env[v] = "num"
+                assigned.append(v)
+            self.uses_while = True
+            self.notes.append(f"while {ast.unparse(st.test)}: state ({', '.join(state)}); np.any over an array argument is modelled pointwise")
+            return True
+        return False
+
+    @staticmethod
+    def assigned_names(stmts):
+        out = []
+        for st in stmts:
+            for nd in ast.walk(st):
+                if isinstance(nd, ast.Name) and isinstance(nd.ctx, ast.Store):
+                    out.append(nd.id)
+        return out
+
+    PRELUDE = {
+        "real": ("/-- `while c s: s = f s` — the state at the first exit of the loop (classical choice).  When the loop\n"
+                 "never exits the value is the start state; theorems about loops carry the exit hypothesis. -/\n"
+                 "noncomputable def whileLoop {σ : Type} (c : σ → Prop) (f : σ → σ) (s : σ) : σ :=\n"
+                 "  if h : ∃ n : ℕ, ¬ c (f^[n] s) then f^[Nat.find h] s else s\n\n"),
+        "float": ("/-- `while c s: s = f s`, fuel-bounded so that the driver always answers -/\n"
+                  "def whileLoop {σ : Type} (fuel : Nat) (c : σ → Bool) (f : σ → σ) (s : σ) : σ :=\n"
+                  "  match fuel with\n  | 0 => s\n  | n + 1 => if c s then whileLoop n c f (f s) else s\n\n"),
+    }
+
     # -------------------------------------------------------------- functions
     def function(self, fn, spec, d):
         """returns (lean text, notes)"""
@@ -273,13 +746,35 @@ class Translator:
             default_of[a] = dflt
         env = {}
         sig = []
+        tuple_params = spec.get("tuple_params", {})
+        none_params = set(spec.get("none_params", ()))
+        self.presence = {p: "absent" for p in none_params}
+        self.presence.update({p: "given" for p in spec.get("given_params", ())})
+        self.presence.update({p: "given" for p in tuple_params})
+        self.pykinds = []
+        self._tmp = 0
         for p in params:
             if p in fun_params:
                 env[p] = "fun"
                 sig.append(f"({san(p)} : {ty} → {ty})")
+            elif p in tuple_params:
+                env[p] = f"tparam:{tuple_params[p]}"
+                sig += [f"({san(p)}_{i} : {ty})" for i in range(tuple_params[p])]
+            elif p in none_params:
+                if p not in default_of or not (isinstance(default_of[p], ast.Constant) and default_of[p].value is None):
+                    raise Refusal(f"parameter {p} is modelled as absent but its default is not None")
+                env[p] = "none"
             else:
                 env[p] = "num"
                 sig.append(f"({san(p)} : {ty})")
+            self.pykinds.append((p, env[p]))
+        if fn.args.kwarg is not None:
+            if not spec.get("kwargs_empty"):
+                raise Refusal(f"**{fn.args.kwarg.arg}")
+            env[fn.args.kwarg.arg] = "kwargs"
+        if fn.args.vararg is not None or fn.args.kwonlyargs:
+            if tuple_params or none_params or spec.get("kwargs_empty"):
+                raise Refusal("*args / keyword-only parameters")
         lets, guards, notes = [], [], []
         body = list(fn.body)
         if body and isinstance(body[0], ast.Expr) and isinstance(body[0].value, ast.Constant):
@@ -312,6 +807,11 @@ class Translator:
                 continue
             if ret is not None:
                 raise Refusal(f"statement after return: {first}")
+            ctx = {"guards": guards, "ret": None, "rettuple": 0, "top": True, "ty": ty}
+            if self.stmt_ext(st, lets, env, d, ctx, pre=True):
+                if ctx["ret"] is not None:
+                    ret, rettuple = ctx["ret"], ctx["rettuple"]
+                continue
             # if fp is None: fp = default
             if (isinstance(st, ast.If) and isinstance(st.test, ast.Compare) and isinstance(st.test.left, ast.Name)
                     and st.test.left.id in fun_params and isinstance(st.test.ops[0], ast.Is)):
@@ -346,6 +846,8 @@ class Translator:
                         raise Refusal(f"mask assignment on unknown arrays: {first}")
                     lets.append(f"let {san(e_)} : {ty} := if {san(m_)} then {san(v_)} else {san(e_)}")
                     continue
+                if self.stmt_ext(st, lets, env, d, ctx, pre=False):
+                    continue
                 raise Refusal(f"assignment target: {first}")
             if isinstance(st, ast.Return) and st.value is not None:
                 v = st.value
@@ -361,6 +863,8 @@ class Translator:
                     ret = "(" + ", ".join(self.expr(x, d, env) for x in v.elts) + ")"
                 else:
                     ret = self.expr(v, d, env)
+                continue
+            if self.stmt_ext(st, lets, env, d, ctx, pre=False):
                 continue
             raise Refusal(f"statement {type(st).__name__}: {first}")
         if ret is None:
